@@ -103,7 +103,24 @@ var nfCases = []nfCase{
 		{fVB, "func edwardsMulGeneric(", "func useVectorBackend() bool { return supportsVectorizedEdwards }\n\nfunc edwardsMulGeneric("},
 	}, ""},
 
+	// --- second pass: visiting order of independent iterations, floating recodings and
+	//     resets of fresh locals, preset counters, while-form search ----------------------------
+	{"loop-direction-independent", []edit{{fWI, "	var Ai [64]affineNielsPoint\n	for i := range Ai {", "	var Ai [64]affineNielsPoint\n	for i := len(Ai) - 1; i >= 0; i-- {"}}, ""},
+	{"recode-reset-order", []edit{{"curve/scalar_mul_basepoint.go", "	a := scalar.ToRadix16()\n\n	out.Identity()\n\n	var sum completedPoint\n	for i := 1; i < 64; i = i + 2 {\n		aPt := tbl[i/2].Lookup(a[i])", "	out.Identity()\n\n	a := scalar.ToRadix16()\n\n	var sum completedPoint\n	for i := 1; i < 64; i = i + 2 {\n		aPt := tbl[i/2].Lookup(a[i])"}}, ""},
+	{"fresh-local-reset-floats", []edit{{fST, "	nafs := make([][256]int8, 0, len(scalars))\n	for _, scalar := range scalars {\n		nafs = append(nafs, scalar.NonAdjacentForm(5))\n	}\n\n	var r projectivePoint\n	r.Identity()\n", "	var r projectivePoint\n	r.Identity()\n\n	nafs := make([][256]int8, 0, len(scalars))\n	for _, scalar := range scalars {\n		nafs = append(nafs, scalar.NonAdjacentForm(5))\n	}\n"}}, ""},
+	{"preset-counter-loop", []edit{
+		{fDB, "		t   completedPoint\n	)\n	for {\n		t.Double(&r)\n\n		if aNaf[i] > 0 {", "		t   completedPoint\n	)\n	for ; i >= 0; i-- {\n		t.Double(&r)\n\n		if aNaf[i] > 0 {"},
+		{fDB, "		r.SetCompleted(&t)\n\n		if i == 0 {\n			break\n		}\n		i--\n	}\n\n	return out.setProjective(&r)", "		r.SetCompleted(&t)\n	}\n\n	return out.setProjective(&r)"},
+	}, ""},
+	{"while-form-search", []edit{{fDB, scanA, "	i := 255\n	for i > 0 {\n		if aNaf[i] != 0 || bNaf[i] != 0 {\n			break\n		}\n		i--\n	}\n\n	tableB := &constAFFINE_ODD_MULTIPLES_OF_BASEPOINT"}}, ""},
+
 	// --- BREAKING: must be reported ------------------------------------------------------------
+	{"B-search-runs-past-zero", []edit{{fDB, scanA, "	i := 255\n	for i >= 0 {\n		if aNaf[i] != 0 || bNaf[i] != 0 {\n			break\n		}\n		i--\n	}\n\n	tableB := &constAFFINE_ODD_MULTIPLES_OF_BASEPOINT"}}, "SIB-skel-horner"},
+	{"B-reset-before-tables-of-aliasing-points", []edit{
+		{fST, "func edwardsMultiscalarMulStrausGeneric(out *EdwardsPoint, scalars []*scalar.Scalar, points []*EdwardsPoint) *EdwardsPoint {\n", "func edwardsMultiscalarMulStrausGeneric(out *EdwardsPoint, scalars []*scalar.Scalar, points []*EdwardsPoint) *EdwardsPoint {\n	out.Identity()\n"},
+		{fST, "		scalarDigitsVec = append(scalarDigitsVec, scalar.ToRadix16())\n	}\n\n	out.Identity()\n", "		scalarDigitsVec = append(scalarDigitsVec, scalar.ToRadix16())\n	}\n"},
+	}, "SIB-skel-pair"},
+	{"B-ctor-dependent-loop-reversed", []edit{{fWI, "	for j := 0; j < 7; j++ {\n		var (\n			tmp  completedPoint\n			tmp2 EdwardsPoint\n		)\n		points[j+1].SetEdwards(tmp2.setCompleted(tmp.AddEdwardsProjectiveNiels(ep, &points[j])))", "	for j := 6; j >= 0; j-- {\n		var (\n			tmp  completedPoint\n			tmp2 EdwardsPoint\n		)\n		points[j+1].SetEdwards(tmp2.setCompleted(tmp.AddEdwardsProjectiveNiels(ep, &points[j])))"}}, "SIB-skel-ctor"},
 	{"B-polarity-swapped", []edit{{fDB, genA, strings.Replace(strings.Replace(genA, "aNaf[i] > 0", "aNaf[i] < 0", 1), "} else if aNaf[i] < 0 {", "} else if aNaf[i] > 0 {", 1)}}, "SIB-skel-polarity"},
 	{"B-scan-misses-a-recoding", []edit{{fDB, scanA, strings.Replace(scanA, "aNaf[j] != 0 || bNaf[j] != 0", "!(aNaf[j] == 0)", 1)}}, "SIB-skel-horner"},
 	{"B-twin-loop-shorter", []edit{{fST, "		for j := 0; j < len(points); j++ {\n			// R_i = s_{i,j} * P_i", "		for j := range points[1:] {\n			// R_i = s_{i,j} * P_i"}}, "SIB-skel-pair"},
